@@ -247,12 +247,141 @@ def _configs(chk):
     return product, adversarial
 
 
+# ----------------------------------------------------------------------------------------------
+# repeat connects with the catalog changed through another session in between
+# ----------------------------------------------------------------------------------------------
+
+def _connect_out(kw) -> str:
+    import snowflake.connector
+    try:
+        c = snowflake.connector.connect(**kw)
+        p = _probe(c)
+        flags = {"90105": "0,0", "90106": "1,0", "2003": "1,1", "2043": "1,1"}.get(p, "probe:" + p)
+        return f"ok,{enc_opt(c.database)},{enc_opt(c.schema)},{flags}"
+    except Exception as e:  # noqa: BLE001
+        return "binder" if type(e).__name__ == "BinderException" else f"X:{type(e).__name__}:{getattr(e, 'errno', '')}"
+
+
+def _real_seq(seq) -> dict:
+    """seq = (cdb, csc, storage, steps); a step is ["connect", dbarg, scarg] or ["sql", text] (run from another session).
+    Every connect is recorded with the catalog state before and after it."""
+    import fakesnow
+    import snowflake.connector
+    cdb, csc, storage, steps = seq
+    d = tempfile.mkdtemp(prefix="c14s")
+    try:
+        dbp = None if storage == "memory" else d
+        rec = []
+        with fakesnow.patch(create_database_on_connect=cdb, create_schema_on_connect=csc, db_path=dbp):
+            obs = snowflake.connector.connect()
+            for st in steps:
+                if st[0] == "sql":
+                    try:
+                        obs.cursor().execute(st[1])
+                        rec.append({"sql": st[1], "result": "ok"})
+                    except Exception as e:  # noqa: BLE001
+                        rec.append({"sql": st[1], "result": type(e).__name__})
+                else:
+                    kw = {}
+                    if st[1] is not None:
+                        kw["database"] = st[1]
+                    if st[2] is not None:
+                        kw["schema"] = st[2]
+                    pre = _listing(obs, dbp)
+                    out = _connect_out(kw)
+                    rec.append({"connect": [st[1], st[2]], "pre": pre, "out": out, "post": _listing(obs, dbp)})
+        return {"steps": rec}
+    except Exception as e:  # noqa: BLE001
+        return {"harness_error": f"{type(e).__name__}: {e}"[:300]}
+    finally:
+        shutil.rmtree(d, ignore_errors=True)
+
+
+def _seq_worker(shard):
+    return [_real_seq(s) for s in shard]
+
+
+def _seq_line(seq, step) -> str:
+    """one connect of a sequence, from the catalog state observed just before it"""
+    cdb, csc, storage, _ = seq
+    att, files = step["pre"]
+    enc_s = lambda schemas: ",".join(f"{enc_str(n)}={k}" for n, k in schemas) or "-"  # noqa: E731
+    attached = [f"{enc_str(c)}|{int(f)}|{enc_s(scs)}" for c, f, scs in att]
+    disk = [f"{enc_str(n)}|-" for n in files]
+    o = f"{enc_opt(step['connect'][0])}|{enc_opt(step['connect'][1])}|{int(cdb)}|{int(csc)}|{int(storage != 'memory')}"
+    return "\t".join(["connect", "run", enc_list(attached), enc_list(disk), enc_list([o])])
+
+
+def _describe_seq(seq, upto: int, real) -> str:
+    cdb, csc, storage, steps = seq
+    parts = []
+    n = 0
+    for st, r in zip(steps, real["steps"]):
+        if st[0] == "sql":
+            parts.append(f"[other session] {st[1]}" + ("" if r["result"] == "ok" else f" ({r['result']})"))
+        else:
+            n += 1
+            parts.append("connect(" + ", ".join([f"database={st[1]!r}"] * (st[1] is not None) + [f"schema={st[2]!r}"] * (st[2] is not None)) + ")")
+            if n > upto:
+                break
+    return (f"patch(create_database_on_connect={cdb}, create_schema_on_connect={csc}, db_path={'<dir>' if storage != 'memory' else None}): "
+            + " ; ".join(parts))
+
+
+def _check_seq(chk, seq, real, replies) -> None:
+    case = {"seq": [seq[0], seq[1], seq[2], [list(s) for s in seq[3]]]}
+    chk.case(("seq", repr(seq)), nontrivial=True)
+    if "harness_error" in real:
+        chk.violation(f"sequence {seq}: setting up / observing failed: {real['harness_error']}", case, broken="C14 harness set-up (correspondence)")
+        return
+    connects = [r for r in real["steps"] if "connect" in r]
+    for k, (r, reply) in enumerate(zip(connects, replies)):
+        chk.count("seq-connect:" + ("repeat" if k else "first"))
+        spec_outs, spec_world = _dec_run(reply["spec"])
+        impl_outs, impl_world = _dec_run(reply["impl"])
+        real_world = (r["post"][0], r["post"][1])
+        bad = None
+        if [r["out"]] != spec_outs:
+            bad = f"gave {_show_out(r['out'])}, required {_show_out(spec_outs[0])}"
+        elif real_world != spec_world:
+            bad = f"left the catalogs (name, file-backed, schemas with content) / db files {real_world}, required {spec_world}"
+        if bad:
+            chk.violation(f"{_describe_seq(seq, k + 1, real)}: connect #{k + 1}, with the catalogs being {r['pre'][0]} just before it, {bad}", case,
+                          broken="C14_conforms/C14_frame for a repeat connect (correspondence with Fs.Connect.connect)")
+            return
+        if ([r["out"]], real_world) != (impl_outs, impl_world):
+            chk.violation(f"{_describe_seq(seq, k + 1, real)}: connect #{k + 1} satisfies the specification but differs from the model of the code: "
+                          f"{r['out']} {real_world} vs {impl_outs} {impl_world}", case, broken="correspondence Fs.Connect.connect", failing_input=False)
+            return
+
+
+def _sequences():
+    """connect → the catalog is changed through another session → connect to the same target again (2-3 connects)"""
+    seqs = []
+    T = "create table DB1.S1.T as select 1 x"
+    for cdb, csc, storage in itertools.product([True, False], [True, False], ["memory", "fresh"]):
+        for d2, s2 in [("db1", "s1"), ("DB1", "S1"), ("Db1", "s1")]:
+            c1, c2 = ["connect", "db1", "s1"], ["connect", d2, s2]
+            seqs += [
+                (cdb, csc, storage, [c1, ["sql", "drop schema DB1.S1"], c2]),
+                (cdb, csc, storage, [c1, ["sql", T], ["sql", "drop schema DB1.S1"], c2, ["sql", "drop schema DB1.S1"], c2]),
+                (cdb, csc, storage, [c1, ["sql", T], c2, ["sql", "drop table DB1.S1.T"], c2]),
+                (cdb, csc, storage, [["connect", "db1", None], ["sql", "create schema DB1.S1"], c2, ["sql", "drop schema DB1.S1"], ["connect", d2, None]]),
+                (cdb, csc, storage, [c1, ["sql", "create database DB1"], c2, ["sql", "create schema DB1.S1"], c2]),
+                (cdb, csc, storage, [c1, ["sql", "drop schema DB1.S1"], ["sql", "create schema DB1.S2"], ["connect", d2, "s2"], c2]),
+                (cdb, csc, storage, [["connect", None, "s1"], ["sql", "create database DB1"], ["sql", "create schema DB1.S1"], c2, ["connect", None, s2]]),
+            ]
+    return seqs
+
+
 def run(chk) -> None:
     product, adversarial = _configs(chk)
     chk.rule = ("complete product database{absent,lower,UPPER,Mixed} × schema{absent,lower,UPPER,information_schema} × create_database × "
                 "create_schema × storage{memory,fresh db_path,db_path with earlier session's files} × prior{nothing,db,db+schema+table} × "
                 f"{{first,second connect}} = {len(product)} configurations, plus {len(adversarial)} adversarial ones (empty strings, built-in "
-                "schema names, unrelated database, names with `_` beside look-alike existing names).  non-trivial = distinct configuration with a database argument")
+                "schema names, unrelated database, names with `_` beside look-alike existing names), plus sequences connect → DDL from another "
+                "session (DROP/CREATE SCHEMA, CREATE DATABASE, CREATE/DROP TABLE) → connect to the same target again (2-3 connects, any letter case), "
+                "each connect compared with the model started from the catalog observed just before it.  non-trivial = distinct configuration with a database argument")
     cfgs = product + adversarial
     shards = common.chunks(cfgs, 16)
     reals = common.shard_map(_worker, shards)
@@ -262,8 +391,23 @@ def run(chk) -> None:
             if "impl" not in m:
                 raise common.Infra(f"connect driver: {m}")
             _check(chk, cfg, r, m)
+    # repeat connects after the catalog changed: each connect is compared with the model started from the catalog state observed before it
+    seqs = _sequences()
+    sshards = common.chunks(seqs, 16)
+    sreals = common.shard_map(_seq_worker, sshards)
+    for shard, rs in zip(sshards, sreals):
+        lines, owners = [], []
+        for i, (seq, r) in enumerate(zip(shard, rs)):
+            for st in r.get("steps", []):
+                if "connect" in st:
+                    lines.append(_seq_line(seq, st))
+                    owners.append(i)
+        replies = common.batch(lines) if lines else []
+        for i, (seq, r) in enumerate(zip(shard, rs)):
+            _check_seq(chk, seq, r, [m for m, o in zip(replies, owners) if o == i])
+    chk.extra["repeat_connect_sequences"] = len(seqs)
     chk.exhaustive = True
-    chk.samples = [{"cfg": list(cfgs[i])} for i in (5, 300, 700, 1100, len(product) + 3)]
+    chk.samples = [{"cfg": list(cfgs[i])} for i in (5, 300, 700, 1100, len(product) + 3)] + [{"seq": list(seqs[1])}]
     chk.extra["product_configurations"] = len(product)
     chk.extra["adversarial_configurations"] = len(adversarial)
     chk.assumptions = [
@@ -276,6 +420,12 @@ def run(chk) -> None:
 
 
 def replay(chk, case) -> None:
+    if "seq" in case:
+        seq = (case["seq"][0], case["seq"][1], case["seq"][2], [list(x) for x in case["seq"][3]])
+        real = _real_seq(seq)
+        lines = [_seq_line(seq, st) for st in real.get("steps", []) if "connect" in st]
+        _check_seq(chk, seq, real, common.batch(lines) if lines else [])
+        return
     cfg = tuple(case["cfg"])
     real = _real(cfg)
     reply = common.batch([_line(cfg)])[0]
